@@ -16,6 +16,12 @@ def _vname_fn(d: Decl):
 
 def _mk(d: Decl):
     """expression building a TT from `x: Inner` inside guarded closure; returns Option<TT>"""
+    if d.new_unchecked:
+        return _mk_checked(d) + "\n    #[allow(unused_unsafe)]\n    fn mku(raw: &nvrt::Value) -> Option<TT> { let x: Inner = nvrt::Conv::from_value(raw); Some(unsafe { TT::new_unchecked(x) }) }"
+    return _mk_checked(d)
+
+
+def _mk_checked(d: Decl):
     if d.has_validation:
         return "fn mk(raw: &nvrt::Value) -> Option<TT> { let x: Inner = nvrt::Conv::from_value(raw); match nvrt::guarded(move || TT::try_new(x)) { Ok(Ok(t)) => Some(t), _ => None } }"
     return "fn mk(raw: &nvrt::Value) -> Option<TT> { let x: Inner = nvrt::Conv::from_value(raw); nvrt::guarded(move || TT::new(x)).ok() }"
@@ -119,6 +125,11 @@ def emit_subject_methods(d: Decl):
         v.append("{ let mut bm = ::std::collections::BTreeMap::new(); bm.insert(mk(raw)?, 1u8); v.btreemap_lookup = Some(bm.get(%s) == Some(&1u8)); }" % key)
     v.append("let _ = &t; Some(v)")
     m.append("fn views(&self, raw: &nvrt::Value) -> Option<nvrt::Views> {\n            " + "\n            ".join(v) + "\n        }")
+    if d.new_unchecked:
+        # the same observations on values built with `unsafe { new_unchecked }` (valid or not: views must expose whatever is stored);
+        # map lookups are left out (they need a lawful order, which an invalid value need not have)
+        vu = [ln.replace("mk(raw)", "mku(raw)") for ln in v if "hashmap_lookup" not in ln and "btreemap_lookup" not in ln]
+        m.append("fn views_unchecked(&self, raw: &nvrt::Value) -> Option<nvrt::Views> {\n            " + "\n            ".join(vu) + "\n        }")
     # ---- comparisons
     c = ["let ta = mk(a)?; let tb = mk(b)?;", "let ia: Inner = mk(a)?.into_inner(); let ib: Inner = mk(b)?.into_inner();",
          "let mut o = nvrt::CmpObs::default();"]
@@ -143,6 +154,9 @@ def emit_subject_methods(d: Decl):
     c.append("let _ = (&ta, &tb, &ia, &ib); Some(o)")
     if any_cmp:
         m.append("fn cmp2(&self, a: &nvrt::Value, b: &nvrt::Value) -> Option<nvrt::CmpObs> {\n            " + "\n            ".join(c) + "\n        }")
+        if d.new_unchecked:
+            cu = [ln.replace("mk(a)", "mku(a)").replace("mk(b)", "mku(b)") for ln in c if "side_ord" not in ln]
+            m.append("fn cmp2_unchecked(&self, a: &nvrt::Value, b: &nvrt::Value) -> Option<nvrt::CmpObs> {\n            " + "\n            ".join(cu) + "\n        }")
     if {"Ord", "PartialOrd", "Eq", "PartialEq"} <= der:
         m.append("""fn sort(&self, raws: &[nvrt::Value]) -> Option<Result<Vec<nvrt::Value>, String>> {
             let mut v: Vec<TT> = Vec::new();
